@@ -45,6 +45,30 @@ Theorem C16_headers : forall chain n0 e x, fresh_input e n0 ->
       /\ map fst suf = appended rule chain (map fst (hdr e)).
   Proof. exact (headers_rule rule subn lower date_of mid_of recv_of). Qed.
 
+  (* a new Received header is placed first: AddReceivedHeader puts its field on top
+     of the whole header list (not on top of the existing Received block), and for
+     every chain containing it - split as c1 ++ PReceived :: c2 at its LAST
+     occurrence - every written envelope starts with the field that this last
+     application put on top of h1, the header list as c1 had left it (earlier new
+     Received fields, then ALL original fields whole and in their order wherever
+     their own Received fields are, then what c1 appended); c2 only appends *)
+Theorem C16_received_placed_first : forall chain n0 e x, fresh_input e n0 ->
+    In PReceived chain -> In x (results (run chain n0 e)) ->
+    (forall n e0, apply rule subn lower date_of mid_of recv_of PReceived n e0
+                  = (set_hdr e0 ((n_received, recv_of e0) :: hdr e0), None, n))
+    /\ exists c1 c2 v h1 suf,
+      chain = c1 ++ PReceived :: c2 /\ existsb (is_received rule) c2 = false
+      /\ hdr x = (n_received, v) :: h1 ++ suf
+      /\ hdr_chain_ok rule c1 (hdr e) h1
+      /\ map fst suf = appended rule c2 (n_received :: map fst h1)
+      /\ exists pre1 suf1, h1 = pre1 ++ hdr e ++ suf1
+           /\ map fst pre1 = repeat n_received (n_received_of rule c1)
+           /\ map fst suf1 = appended rule c1 (map fst (hdr e)).
+  Proof.
+    intros chain n0 e x Hf Hin Hx. split; [reflexivity|].
+    exact (received_placed_first rule subn lower date_of mid_of recv_of chain n0 e x Hf Hin Hx).
+  Qed.
+
   (* Forward: the first rule with a non-empty result and changes > 0 wins ... *)
 Theorem C16_forward_first_match : forall pre ru post r,
     Forall (fun q => hits rule subn q r = false) pre -> hits rule subn ru r = true ->
@@ -113,6 +137,7 @@ End C16.
 Print Assumptions C16_conservation.
 Print Assumptions C16_no_sharing.
 Print Assumptions C16_headers.
+Print Assumptions C16_received_placed_first.
 Print Assumptions C16_forward_first_match.
 Print Assumptions C16_forward_unmatched.
 Print Assumptions C16_forward_identity_match_stops.
